@@ -237,15 +237,16 @@ def simple(ens):
     return {'ret': 'res', 'ensures': ens}
 
 P_ATTACK = ('C06', 'C01', 'C02', 'C13', 'C04')
+OWN_ATTACK = ('C06', 'C01', 'C13')   # for C02/C04/C05 a wrong attack test is a failed support obligation, not their violation
 
 def build(g):
     g.add(types(g), SPEC)
-    g.add('impl PieceColor {', g.fn('board', 'opposite', simple(['res == opp(self)']), impl='PieceColor', qual='PieceColor::opposite', props=P_ATTACK), '}')
+    g.add('impl PieceColor {', g.fn('board', 'opposite', simple(['res == opp(self)']), impl='PieceColor', qual='PieceColor::opposite', props=P_ATTACK, own=OWN_ATTACK), '}')
     g.add('impl Piece {')
     for k in ['pawn', 'knight', 'bishop', 'rook', 'queen', 'king']:
-        g.add(g.fn('board', k, simple(['res == (Piece { kind: %s, color })' % k.capitalize()]), impl='Piece', qual='Piece::' + k, props=P_ATTACK))
+        g.add(g.fn('board', k, simple(['res == (Piece { kind: %s, color })' % k.capitalize()]), impl='Piece', qual='Piece::' + k, props=P_ATTACK, own=OWN_ATTACK))
     g.add('}')
-    g.add('impl Square {', g.fn('board', 'is_empty', simple(['res == (self == Square::Empty)']), impl='Square', qual='Square::is_empty', props=P_ATTACK), '}')
-    g.add('impl PartialEq<Piece> for Square {', g.fn('board', 'eq', None, impl=r'PartialEq<Piece>\s+for\s+Square', qual='Square::eq', props=P_ATTACK), '}')
-    g.add(g.fn('move_generation', 'is_check_cords', ANN_CORDS, props=P_ATTACK))
-    g.add(g.fn('move_generation', 'is_check', ANN_IS_CHECK, props=P_ATTACK))
+    g.add('impl Square {', g.fn('board', 'is_empty', simple(['res == (self == Square::Empty)']), impl='Square', qual='Square::is_empty', props=P_ATTACK, own=OWN_ATTACK), '}')
+    g.add('impl PartialEq<Piece> for Square {', g.fn('board', 'eq', None, impl=r'PartialEq<Piece>\s+for\s+Square', qual='Square::eq', props=P_ATTACK, own=OWN_ATTACK), '}')
+    g.add(g.fn('move_generation', 'is_check_cords', ANN_CORDS, props=P_ATTACK, own=OWN_ATTACK))
+    g.add(g.fn('move_generation', 'is_check', ANN_IS_CHECK, props=P_ATTACK, own=OWN_ATTACK))
